@@ -31,6 +31,9 @@ def _modname_to_rel(modname, repo, cur_rel=None, level=0):
     return None
 
 
+_FALLTHROUGH = object()
+
+
 class ConstEval:
     def __init__(self, repo):
         self.repo = repo
@@ -197,6 +200,20 @@ class ConstEval:
         if isinstance(node, ast.UnaryOp) and isinstance(node.op, ast.Not):
             v = self.ev(node.operand, rel, env, depth + 1)
             return UNKNOWN if v is UNKNOWN else (not v)
+        if isinstance(node, ast.BoolOp):
+            # short-circuit evaluation with Python's value semantics
+            is_and = isinstance(node.op, ast.And)
+            last = UNKNOWN
+            for v_ in node.values:
+                last = self.ev(v_, rel, env, depth + 1)
+                if last is UNKNOWN:
+                    return UNKNOWN
+                try:
+                    if bool(last) != is_and:
+                        return last
+                except Exception:
+                    return UNKNOWN
+            return last
         if isinstance(node, ast.Attribute):
             # module constant through `import biom.util` style
             d = dotted(node)
@@ -235,6 +252,27 @@ class ConstEval:
                 except Exception:
                     return UNKNOWN
         name = dotted(node.func)
+        if name == 'isinstance' and len(node.args) == 2:
+            v = self.ev(node.args[0], rel, env, depth + 1)
+            if v is UNKNOWN:
+                return UNKNOWN
+            T = {'dict': dict, 'list': list, 'str': str, 'int': int,
+                 'float': float, 'bool': bool, 'tuple': tuple, 'set': set,
+                 'bytes': bytes}
+            spec = node.args[1]
+            elts = spec.elts if isinstance(spec, ast.Tuple) else [spec]
+            types = []
+            for e_ in elts:
+                if isinstance(e_, ast.Name) and e_.id in T:
+                    types.append(T[e_.id])
+                elif isinstance(e_, ast.Call) and dotted(e_.func) == 'type' \
+                        and len(e_.args) == 1 and isinstance(
+                        e_.args[0], ast.Constant) and \
+                        e_.args[0].value is None:
+                    types.append(type(None))
+                else:
+                    return UNKNOWN
+            return isinstance(v, tuple(types))
         if name in ('frozenset', 'set', 'tuple', 'list', 'str') and \
                 len(node.args) == 1:
             v = self.ev(node.args[0], rel, env, depth + 1)
@@ -266,6 +304,33 @@ class ConstEval:
                 bound[p] = self.ev(d, frel, {}, depth + 1) if d is not None \
                     else UNKNOWN
         return self._run(func.body, frel, bound, depth + 1)
+
+    def run_body(self, body, rel, env):
+        """Return value of straight-line / if-else code under `env` (a
+        dict that is updated in place), UNKNOWN when anything is not
+        evaluable.  Statements other than docstrings, assignments to names,
+        if/else and return make the result UNKNOWN."""
+        for st in body:
+            if isinstance(st, ast.Expr) and isinstance(st.value,
+                                                       ast.Constant):
+                continue
+            if isinstance(st, ast.Return):
+                return self.ev(st.value, rel, env, 1) if st.value \
+                    is not None else None
+            if isinstance(st, ast.If):
+                t = self.ev(st.test, rel, env, 1)
+                if t is UNKNOWN:
+                    return UNKNOWN
+                r = self.run_body(st.body if t else st.orelse, rel, env)
+                if r is not _FALLTHROUGH:
+                    return r
+                continue
+            if isinstance(st, ast.Assign) and len(st.targets) == 1 and \
+                    isinstance(st.targets[0], ast.Name):
+                env[st.targets[0].id] = self.ev(st.value, rel, env, 1)
+                continue
+            return UNKNOWN
+        return _FALLTHROUGH
 
     def _run(self, body, rel, env, depth):
         for st in body:
